@@ -49,7 +49,7 @@ Proof. eexists _, _. split; [vm_compute; reflexivity|]. cbn [g_jit]. unfold slot
 Print Assumptions C01_nonvacuous.
 
 (* the constants of the model's encoder are those of the current Rust source (gen/SrcConsts.v is regenerated from it on every run) *)
-From Inj Require Import SrcTie.
+From Inj Require Import SrcTieAmd64 SrcTieAmd64Bool.
 From Inj.gen Require Import SrcConsts.
 Theorem C01_source_short_form : forall oc from to off, branch_offset oc from to = Some off ->
   (-2147483648 <=? off) && (off <=? 2147483647) = true ->
